@@ -20,7 +20,8 @@ RULE = ("programs = slot assignments over <= 3 slots for 5 container shapes + se
         "flag-less run; explored graph = prefix tree of all |P|! single-category orders (shared prefixes executed once) plus the "
         "joint run; states = distinct file texts, transitions = sessions (Example.run_inline; a slice of programs through real "
         "pytest sessions); observations are recorded, not asserted, so they do not depend on the approved set; validated = "
-        "programs whose maximal paths all end in one AST; non-trivial = |P| >= 2")
+        "programs whose maximal paths all end in one AST; non-trivial = |P| >= 2"
+        "; plus one-line multi-site programs behind non-ASCII text and equal-but-differently-typed value pairs under two keys")
 ASSUMPTIONS = ["programs whose observations depend on the approved set (a failing assert aborting the test) are excluded: "
                "that is the documented hazard of trimming on an incomplete run, not a confluence failure"]
 CATS = ("create", "fix", "trim", "update")
